@@ -351,4 +351,5 @@ RULES = [
 	('06.i', 'splice: HTLC output indices remapped to the new commitment; claim re-issue timers are only pulled earlier by deadlines', r06i),
 	('06.h', 'justice claims stay valid: re-queued claims carry the latest request state; reorg boundary keeps confirmed spends', r06h),
 	('06.p', 'same-name field transfer: structs carrying this property\'s quantities are filled from the same-named field or a reviewed alias (rules/provenance.py)', lambda F: provenance.for_property(F, 'C06', '06.p')),
+	('06.q', 'no call hands a value named like one parameter of the callee to a different parameter (swapped type-compatible arguments; rules/provenance.py)', lambda F: provenance.swaps_for_property(F, 'C06', '06.q')),
 ]
